@@ -112,7 +112,9 @@ var c14OpKinds = []string{"map.put", "list.insert", "list.insert2", "list.update
 // non-value operations
 var c14Plain = []string{"counter.inc1", "counter.incmax", "counter.incmin", "map.remove", "list.delete", "list.deletemany", "doc.delete", "doc.arrdelete", "tx",
 	// batches of no values at all: accepted or refused, but whatever the origin queues must survive the wire
-	"list.insert0", "list.update0", "doc.arrinsert0", "doc.arrupdate0", "tx-empty"}
+	"list.insert0", "list.update0", "doc.arrinsert0", "doc.arrupdate0", "tx-empty",
+	// range deletes whose targets come from one insert without being neighbours in its numbering
+	"doc.arrdelete-hole", "doc.arrdelete-nested", "list.deletemany-hole"}
 
 func intKeyed(n int) map[int][]interface{} {
 	m := map[int][]interface{}{}
@@ -274,6 +276,20 @@ func c14Run(kind string, nv *namedValue) (v *pt.Violation, digest string, produc
 		if kind == "doc.delete" {
 			r0.doc.PutToObject(objKey, map[string]interface{}{"x": "y"})
 		}
+		if strings.HasPrefix(kind, "doc.arrdelete-") {
+			// elements of ONE insert that a later range delete addresses together although they are not neighbours in the
+			// insert's numbering: an earlier delete left a hole / a nested value numbered its members in between
+			a, _ := r0.doc.GetFromObject("arr")
+			if strings.HasPrefix(kind, "doc.arrdelete-hole") {
+				a.InsertToArray(0, "h0", "h1", "h2", "h3")
+				a.DeleteInArray(1)
+			} else {
+				a.InsertToArray(0, "n0", map[string]interface{}{"k": "v"}, "n2", "n3")
+			}
+		}
+	}
+	if strings.HasPrefix(kind, "list.deletemany-hole") {
+		r0.li.Delete(1)
 	}
 	w.Sync(0)
 	w.Sync(1)
@@ -347,6 +363,17 @@ func c14Run(kind string, nv *namedValue) (v *pt.Violation, digest string, produc
 		case "doc.arrdelete":
 			a, _ := r0.doc.GetFromObject("arr")
 			_, ee := a.DeleteManyInArray(0, 2)
+			e = errOf(ee)
+		case "doc.arrdelete-hole":
+			a, _ := r0.doc.GetFromObject("arr")
+			_, ee := a.DeleteManyInArray(0, 2)
+			e = errOf(ee)
+		case "doc.arrdelete-nested":
+			a, _ := r0.doc.GetFromObject("arr")
+			_, ee := a.DeleteManyInArray(0, 3)
+			e = errOf(ee)
+		case "list.deletemany-hole":
+			_, ee := r0.li.DeleteMany(0, 2)
 			e = errOf(ee)
 		case "list.insert0":
 			_, ee := r0.li.InsertMany(1)
